@@ -175,7 +175,7 @@ func C03(p *core.Program, r *core.Report) {
 		for _, t := range simpleInlineTags {
 			n, okT := 0, true
 			for _, pa := range consistentWith(paths, "dom.TagName($0)", t) {
-				if len(pa.Lits) > 0 && strings.HasPrefix(pa.Lits[0].Atom, "len(regexp.Regexp.FindStringSubmatch("+rxDisplay+",") && !pa.Lits[0].Val {
+				if len(pa.Lits) > 0 && inlineDisplayGiven(pa.Lits[0]) {
 					continue // an inline style decides
 				}
 				n++
